@@ -151,12 +151,18 @@ func (s *storageDeferredCreation) GetAfterAddSeq(ctx context.Context, addSeq uin
 	return nil
 }
 
-func (s *storageDeferredCreation) createStorageAndDoInTx(ctx context.Context, proc func(ctx context.Context) error) error {
+func (s *storageDeferredCreation) createStorageAndDoInTx(ctx context.Context, proc func(ctx context.Context) error) (err error) {
 	tx, err := s.store.WriteTx(ctx)
 	if err != nil {
 		return fmt.Errorf("write tx: %w", err)
 	}
-	defer tx.Rollback()
+	defer func() {
+		if err != nil {
+			// the creating transaction did not commit: nothing of the storage exists
+			s.storage = nil
+		}
+		tx.Rollback()
+	}()
 
 	err = s.createStorage(tx.Context())
 	if err != nil {
